@@ -46,6 +46,10 @@ type startupFanSpec struct {
 	Max         *int     `json:"max"`
 	SettleMs    int      `json:"settle_ms"` // parinit: (virtual) ms the RPM needs to follow a PWM change
 	DelayMs     int      `json:"delay_ms"`  // parinit: (virtual) start delay
+	// parinit fault injection: "" | "pwm-write" (PWM writes fail from write number FaultArg on) |
+	// "rpm-read" (RPM reads fail while the device shows PWM value FaultArg) | "ctl" (every curve evaluation fails)
+	Fault    string `json:"fault,omitempty"`
+	FaultArg int    `json:"fault_arg,omitempty"`
 }
 type startupDbEntry struct {
 	Id     int      `json:"id"`
@@ -88,6 +92,7 @@ type startupEv struct {
 	Kind string // W (pwm write) E (mode write) R (rpm read) S (sleep) P (persistence) EVAL RET
 	Val  int
 	Op   string
+	Rst  bool // logged while restorePwmEnabled of this fan was running
 }
 
 type startupDev struct {
@@ -102,6 +107,9 @@ type startupDev struct {
 	rpmFrom float64
 	rpmTo   float64
 	rpmT0   time.Duration
+	shown     int // what the device shows
+	nWrites   int // PWM writes attempted
+	restoring int // > 0 while restorePwmEnabled runs
 }
 
 type startupEnv struct {
@@ -147,7 +155,11 @@ func (e *startupEnv) now() time.Duration {
 
 func (e *startupEnv) log(fan int, kind string, val int, op string) int {
 	e.seq++
-	e.events = append(e.events, startupEv{Seq: e.seq, Fan: fan, Kind: kind, Val: val, Op: op})
+	rst := false
+	if d, ok := e.devs[fan]; ok {
+		rst = d.restoring > 0
+	}
+	e.events = append(e.events, startupEv{Seq: e.seq, Fan: fan, Kind: kind, Val: val, Op: op, Rst: rst})
 	return e.seq
 }
 
@@ -196,7 +208,8 @@ func startupNewEnv(dir string, virtual bool, scale int64) *startupEnv {
 		dbPath: filepath.Join(dir, "fan2go.db"), virtual: virtual, t0: time.Now(), scale: scale}
 	util.VerifAfterWrite = e.afterWrite
 	util.VerifReadHook = e.readHook
-	util.VerifWriteHook = nil
+	util.VerifWriteHook = e.writeHook
+	util.VerifMarkHook = e.markHook
 	if virtual {
 		util.VerifSleepHook = func(d time.Duration) {
 			e.mu.Lock()
@@ -214,9 +227,44 @@ func startupNewEnv(dir string, virtual bool, scale int64) *startupEnv {
 func (e *startupEnv) close() {
 	util.VerifAfterWrite = nil
 	util.VerifReadHook = nil
+	util.VerifWriteHook = nil
+	util.VerifMarkHook = nil
 	util.VerifSleepHook = nil
 	util.VerifSleepNum = 1
 	util.VerifSleepDen = 1
+}
+
+// writeHook injects write faults (the real write is performed unless a fault answers)
+func (e *startupEnv) writeHook(path string, data []byte) (error, bool) {
+	e.mu.Lock()
+	defer e.mu.Unlock()
+	d, ok := e.byPath[path]
+	if !ok || path != d.pwmPath {
+		return nil, false
+	}
+	d.nWrites++
+	if d.spec.Fault == "pwm-write" && d.nWrites >= d.spec.FaultArg {
+		return errors.New("injected write fault"), true
+	}
+	return nil, false
+}
+
+// markHook: begin / end of restorePwmEnabled of a fan ("fan<id>")
+func (e *startupEnv) markHook(kind string, id string) {
+	n, err := strconv.Atoi(strings.TrimPrefix(id, "fan"))
+	if err != nil {
+		return
+	}
+	e.mu.Lock()
+	defer e.mu.Unlock()
+	if d, ok := e.devs[n]; ok {
+		switch kind {
+		case "restore-begin":
+			d.restoring++
+		case "restore-end":
+			d.restoring--
+		}
+	}
 }
 
 func (e *startupEnv) afterWrite(path string, data []byte) {
@@ -236,6 +284,7 @@ func (e *startupEnv) afterWrite(path string, data []byte) {
 		if shown != v {
 			_ = os.WriteFile(path, []byte(strconv.Itoa(shown)), 0644)
 		}
+		d.shown = shown
 		d.shownChanged(e, shown)
 		e.log(d.spec.Id, "W", v, "")
 	case d.enPath:
@@ -252,6 +301,9 @@ func (e *startupEnv) readHook(path string) ([]byte, error, bool) {
 	}
 	switch path {
 	case d.rpmPath:
+		if d.spec.Fault == "rpm-read" && d.shown == d.spec.FaultArg {
+			return nil, errors.New("injected read fault"), true
+		}
 		rpm := int(d.rpmAt(e.now()))
 		e.log(d.spec.Id, "R", rpm, "")
 		return []byte(strconv.Itoa(rpm) + "\n"), nil, true
@@ -310,6 +362,7 @@ func (e *startupEnv) addDevice(spec startupFanSpec) *startupDev {
 	d := &startupDev{spec: spec, dir: dir}
 	d.pwmPath = filepath.Join(dir, "pwm1")
 	_ = os.WriteFile(d.pwmPath, []byte("120"), 0644)
+	d.shown = 120
 	d.rpmTo = 1500
 	d.rpmFrom = 1500
 	switch spec.Kind {
@@ -437,6 +490,7 @@ type startupCurve struct {
 	once  sync.Once
 	first chan struct{}
 	hook  func()
+	fail  bool // every evaluation fails (control-loop fault)
 }
 
 func (c *startupCurve) GetId() string { return "startup_curve" }
@@ -447,6 +501,9 @@ func (c *startupCurve) Evaluate() (int, error) {
 		}
 		close(c.first)
 	})
+	if c.fail {
+		return 0, errors.New("injected curve fault")
+	}
 	return 128, nil
 }
 func (c *startupCurve) CurrentValue() int { return 128 }
@@ -463,7 +520,7 @@ type startupProc struct {
 func (e *startupEnv) launch(d *startupDev, updateRate time.Duration) *startupProc {
 	fan := d.newFan()
 	pers := &startupPersistence{inner: persistence.NewPersistence(e.dbPath), env: e, dev: d}
-	curve := &startupCurve{first: make(chan struct{})}
+	curve := &startupCurve{first: make(chan struct{}), fail: d.spec.Fault == "ctl"}
 	curve.hook = func() {
 		e.flushCmdLog(d)
 		e.mu.Lock()
